@@ -37,6 +37,14 @@ type settleTracker struct {
 	// extraV2[product] = sum over generation-2 settlements of this event of
 	// (total debt recorded at seizure - principal): interest + closing fee
 	extraV2 map[uint64]*big.Int
+	// seizures observed in this event
+	seized []seizure
+}
+
+type seizure struct {
+	Gen      int
+	LockedID uint64
+	VaultID  uint64
 }
 
 func newSettleTracker() *settleTracker { return &settleTracker{await: map[awaitKey]awaitEntry{}} }
@@ -44,6 +52,7 @@ func newSettleTracker() *settleTracker { return &settleTracker{await: map[awaitK
 func (s *settleTracker) advance(pre, post *cdpSnap) {
 	s.seizedV1, s.seizedV2, s.settledV1, s.settledV2 = 0, 0, 0, 0
 	s.extraV2 = map[uint64]*big.Int{}
+	s.seized = nil
 	for id, lv := range post.LockedV1 {
 		if _, was := pre.LockedV1[id]; was {
 			continue
@@ -52,6 +61,7 @@ func (s *settleTracker) advance(pre, post *cdpSnap) {
 			if _, still := post.Vaults[lv.OriginalVaultId]; !still {
 				s.await[awaitKey{1, id}] = awaitEntry{Prod: v.ExtendedPairVaultID, In: v.AmountIn.BigInt(), Out: v.AmountOut.BigInt()}
 				s.seizedV1++
+				s.seized = append(s.seized, seizure{1, id, lv.OriginalVaultId})
 			}
 		}
 	}
@@ -66,6 +76,7 @@ func (s *settleTracker) advance(pre, post *cdpSnap) {
 			if _, still := post.Vaults[lv.OriginalVaultId]; !still {
 				s.await[awaitKey{2, id}] = awaitEntry{Prod: v.ExtendedPairVaultID, In: v.AmountIn.BigInt(), Out: v.AmountOut.BigInt()}
 				s.seizedV2++
+				s.seized = append(s.seized, seizure{2, id, lv.OriginalVaultId})
 			}
 		}
 	}
